@@ -654,3 +654,7 @@ impl<'template, 'env> BlockStack<'template, 'env> {
         self.instructions.push(instructions);
     }
 }
+
+#[cfg(kani)]
+#[path = "/verif/kani/vm_state.rs"]
+mod verif_kani;
